@@ -93,6 +93,33 @@ def classes():
             "concurrent": concurrent}
 
 
+class _OnlyContains:
+    """test_ids is "something that supports the __contains__ protocol": this supports nothing else."""
+
+    def __init__(self, ids):
+        self._ids = set(ids)
+
+    def __contains__(self, x):
+        return x in self._ids
+
+
+class _SetWithOwnContains(set):
+    """A set subclass answering `in` itself (think: case-folding, globbing); as a plain set it is empty."""
+
+    def __init__(self, ids):
+        super().__init__()
+        self._ids = set(ids)
+
+    def __contains__(self, x):
+        return x in self._ids
+
+
+def as_ids(keep, how):
+    return {None: set, "set": set, "frozenset": frozenset, "list": list, "tuple": tuple,
+            "dict": lambda k: dict.fromkeys(k, 0), "contains_only": _OnlyContains,
+            "set_subclass": _SetWithOwnContains}[how](keep)
+
+
 def build(tree, cls, runlog):
     from testtools import PlaceHolder
 
@@ -101,11 +128,21 @@ def build(tree, cls, runlog):
             runlog.append(self.id())
             return super().run(result)
 
+    class OwnFilterLeaf(Leaf):
+        # "to provide compatibility for a custom TestCase that does something unusual define filter_by_ids"
+        def filter_by_ids(self, ids):
+            build.own_calls.append(self.id())
+            return self if self.id() in ids else unittest.TestSuite()
+
     def rec(t):
         if t[0] == "leaf":
-            return Leaf(t[1])
+            return (OwnFilterLeaf if t[1] in build.own else Leaf)(t[1])
         return cls[t[0]]([rec(c) for c in t[1]])
     return rec(tree)
+
+
+build.own = frozenset()
+build.own_calls = []
 
 
 def leaves(t):
@@ -130,6 +167,8 @@ def x_tree(ctx, case):
     from testtools import iterate_tests
     from testtools.testsuite import filter_by_ids, sorted_tests
     tree, keep = case["tree"], set(case["keep"])
+    ids_arg = as_ids(keep, case.get("ids_as"))      # what is handed to filter_by_ids as test_ids
+    build.own = frozenset(case.get("own_filter", []))
     cls = classes()
     L = leaves(tree)
     detail = lambda: {"tree": tree, "keep": sorted(keep)}  # noqa: E731
@@ -141,7 +180,18 @@ def x_tree(ctx, case):
     # ---- filter_by_ids -----------------------------------------------------------------------
     s = build(tree, cls, [])
     before = paths(s)
-    f = filter_by_ids(s, keep)
+    del build.own_calls[:]
+    try:
+        f = filter_by_ids(s, ids_arg)
+    except Exception as e:  # noqa - in-domain input: that is the violation, not a harness problem
+        ctx.check(False, "filter.exactly-the-chosen-in-order",
+                  {"filter_by_ids raised": repr(e), "test_ids given as": case.get("ids_as") or "set", **detail()})
+        return True
+    if build.own:
+        # a test case with a filter_by_ids of its own is filtered by calling it (once)
+        want_calls = sorted(i for i in L if i in build.own)
+        ctx.check(sorted(build.own_calls) == want_calls, "filter.a-case's-own-filter_by_ids-is-used",
+                  lambda: {"called for": sorted(build.own_calls), "cases defining it": want_calls, **detail()})
     got = [t.id() for t in iterate_tests(f)]
     ctx.check(got == [i for i in L if i in keep], "filter.exactly-the-chosen-in-order",
               lambda: {"got": got, "want": [i for i in L if i in keep], **detail()})
@@ -166,7 +216,7 @@ def x_tree(ctx, case):
         ctx.count("mon:filter.grouping-preserved")
     # every removed test leaves its own new, empty TestSuite: using one as the suite it is documented
     # to be must not show up anywhere else (here, or in the result of another filter_by_ids call)
-    other = filter_by_ids(build(tree, cls, []), keep)
+    other = filter_by_ids(build(tree, cls, []), ids_arg)
 
     def empties(obj, acc):
         try:
@@ -315,7 +365,7 @@ def x_tree(ctx, case):
                   lambda: {"nested custom suites dissolved": missing, **detail()})
         # the sorted suite can still be filtered (testtools.run discover --load-list does exactly that)
         try:
-            f2 = filter_by_ids(st, keep)
+            f2 = filter_by_ids(st, ids_arg)
             got2 = sorted(t.id() for t in iterate_tests(f2))
             err2 = None
         except Exception as e:  # noqa
@@ -358,6 +408,17 @@ def _under_custom(root, target, inside=False):
 
 
 _mod_counter = itertools.count()
+
+
+_LIST_DIR = []
+
+
+def _list_dir():
+    if not _LIST_DIR:
+        import atexit
+        _LIST_DIR.append(tempfile.mkdtemp(prefix="tvm-c19-lists-"))
+        atexit.register(shutil.rmtree, _LIST_DIR[0], True)
+    return _LIST_DIR[0]
 
 
 def x_run(ctx, case):
@@ -434,7 +495,9 @@ def x_run(ctx, case):
         ctx.check(listed[-1:] == [""] and listed[:-1] == L, "run.list-prints-exactly-the-ids",
                   lambda: {"listed": listed, "want": L, "tree": tree})
         ctx.check(not runlog, "run.list-runs-nothing", lambda: {"ran": runlog})
-        path = os.path.join(d, "ids.list")
+        # (the same file name for every case of this process, rewritten each time - the way a CI job re-runs
+        # `--load-list failing.list`: each TestProgram reads what the file holds NOW)
+        path = os.path.join(_list_dir(), "ids.list")
         style = case.get("style", 0)
         sep = ["\n", "\r\n", " \n"][style % 3]
         with open(path, "wb") as f:
@@ -640,9 +703,13 @@ def run(ctx):
         ids = iter(["t9", "t7", "t5", "t3", "t1"])
         tree = assign_ids(shape, ids)
         L = leaves(tree)
-        for keep in ([], L, L[::2], L[1:] + ["absent"]):
+        for k, keep in enumerate(([], L, L[::2], L[1:] + ["absent"])):
             n += 1
             ctx.execute("tree", {"tree": tree, "keep": keep})
+            if L and k in (2, 3):
+                # test_ids handed over as another kind of container; a case with a filter_by_ids of its own
+                how = ["frozenset", "list", "tuple", "dict", "contains_only", "set_subclass"][n % 6]
+                ctx.execute("tree", {"tree": tree, "keep": keep, "ids_as": how, "own_filter": L[:1] if n % 2 else L[-1:]})
     ctx.note_space("every tree shape with <= %d nodes over {plain, custom, custom+sort_tests} x 4 id "
                    "subsets" % (4 if ctx.quick else 5), n)
     ctx.notes["random_cases"] = True
@@ -653,7 +720,12 @@ def run(ctx):
         tree = random_tree(rng, rng.randint(0, 4), ids, rng.choice([0, 0, 0.15]))
         L = leaves(tree)
         keep = [x for x in L if rng.random() < 0.5] + (["absent"] if rng.random() < 0.3 else [])
-        ctx.execute("tree", {"tree": tree, "keep": keep})
+        case = {"tree": tree, "keep": keep}
+        if rng.random() < 0.4:
+            case["ids_as"] = rng.choice(["frozenset", "list", "tuple", "dict", "contains_only", "set_subclass"])
+        if rng.random() < 0.3 and L:
+            case["own_filter"] = sorted(set(rng.sample(L, rng.randint(1, min(3, len(L))))))
+        ctx.execute("tree", case)
     for i in range(ctx.scale(250, 20000)):
         if ctx.out_of_time():
             break
